@@ -4,9 +4,48 @@ from . import rtprop
 THEOREMS = ['FlexVerif.validate_sound', 'FlexVerif.Buf.run_from_init', 'FlexVerif.Buf.refill_spec']
 
 
+def reject_overflow_probe(ctx, results):
+    """a scanner with the REJECT machinery (here: a rule with variable head and variable trailing context, no REJECT
+    in any action) keeps one automaton state per buffered character in yy_state_buf, which is sized with the
+    buffer and never grown: a token longer than the buffer must end in the documented fatal error, not in a
+    larger yy_ch_buf next to the old yy_state_buf"""
+    import os
+    from . import flexrun, rules, rt
+    flex, src = flexrun.build_flex()
+    work = flexrun.scratch_root()
+    rs = rules.RuleSet()
+    low = ('cls', ('br', False, [('r', 97, 122)]))
+    dig = ('cls', ('br', False, [('r', 48, 57)]))
+    rs.rules = [{'scs': [], 'all': False, 'bol': False, 'head': ('plus', low), 'trail': ('cat', ('plus', dig), ('chr', 120)), 'dollar': False},
+                {'scs': [], 'all': False, 'bol': False, 'head': ('plus', dig), 'trail': None, 'dollar': False}]
+    for backend in ('nr', 'r', 'c99'):
+        for bufsize in (16, 64):
+            cfg = rt.Config(backend=backend, topt=['-Cem'], interactive=False, bufsize=bufsize if backend == 'c99' else None)
+            b = rt.build_scanner(flex, src, work, 'c13_ro_%s_%d' % (backend, bufsize), rs, cfg, lex_seed=3)
+            if b['status'] != 'ok':
+                ctx.violation('REJECT-overflow probe does not build (%s): %s' % (backend, (b.get('cc_output') or b.get('flex_stderr') or '')[-300:]), {'backend': backend})
+                continue
+            inp = [97 + i % 26 for i in range(40 * bufsize)] + [49, 50, 120, 10]
+            ct = rt.case_text(rs, b, cfg, [inp], ['lex', 'lex', 'destroy'], sched=[7], bufsize=bufsize)
+            cfn = os.path.join(work, 'c13_ro.case')
+            open(cfn, 'w').write(ct)
+            r = rt.run_real(b['exe'], cfn)
+            out = [l for l in r['out'] if l]
+            if r['rc'] != 0:
+                ctx.violation('a token longer than the buffer in a scanner with variable trailing context (%s, buffer %d): crash / sanitizer report '
+                              '(rc=%s): %s' % (backend, bufsize, r['rc'], r['err'][:300]), {'backend': backend, 'bufsize': bufsize, 'lex': b['lex']})
+            elif 'fatal reject_overflow' not in out:
+                ctx.violation('a token longer than the buffer in a scanner with variable trailing context (%s, buffer %d) does not end in the '
+                              '"can\'t enlarge buffer because scanner uses yyreject()" error: %s' % (backend, bufsize, out[:3]),
+                              {'backend': backend, 'bufsize': bufsize, 'lex': b['lex']})
+            from . import rtcheck
+            rtcheck._rm(b)
+
+
 def run(ctx):
     q1, q2, q3 = {'quick': (64, 48, 32), 'thorough': (600, 400, 200)}[ctx.tier]
     plan = [('buffers', q1, 6), ('include', q2, 6), ('ops', q2, 6), ('unput', q3, 6), ('reject', q3, 6), ('eof', q3, 6), ('lineno', q3, 4), ('deepstack', q3, 4), ('bufreq', q3, 6), ('arraymore', q3, 6)]
     return rtprop.run(ctx, THEOREMS, plan, 'exploration',
                       "memory safety and release: every runtime case runs on a scanner built with -fsanitize=address,undefined -fno-sanitize-recover (any report is a violation); with the ledger allocator (noyyalloc/noyyrealloc/noyyfree; realloc always moves and poisons) every pointer freed/reallocated must come from the ledger and, after the user's buffers are deleted and yylex_destroy() called, nothing may stay live; a destroyed scanner is reused and destroyed again; emitted tables are bounds-checked for all inputs by the validator's decoders (DState.bad); Buf.run_from_init / refill_spec: in the buffer machine the buffer never holds more than yy_buf_size characters (Inv.fits), and that machine's read requests are compared with the real scanner's (bufreq family)" + '. Kernel-checked theorems about the abstract scanner (listed under obligations) + differential '
-                      'correspondence of the real generated scanner (ASan/UBSan build) with that model on generated cases.')
+                      'correspondence of the real generated scanner (ASan/UBSan build) with that model on generated cases.',
+                      post=reject_overflow_probe)
